@@ -277,13 +277,13 @@ pub fn stmt(case: &Value) -> Value {
 
 /// {link: <link json>, ver: naive|v01, pred?: <predicate json>}
 pub fn from_meta(case: &Value) -> Value {
-    let link = match serde_json::from_value::<LinkMetadata>(case["link"].clone()) {
+    let link = match crate::util::via_text::<LinkMetadata>(&case["link"]) {
         Ok(l) => l,
         Err(e) => return json!({"link_err": e.to_string()}),
     };
     let pred = match case.get("pred") {
         Some(p) if !p.is_null() => {
-            match serde_json::from_value::<PredicateWrapper>(p.clone()) {
+            match crate::util::via_text::<PredicateWrapper>(p) {
                 Ok(w) => Some(w.into_trait()),
                 Err(e) => return json!({"pred_err": e.to_string()}),
             }
